@@ -171,3 +171,23 @@ PROPS["C06"] = {
     "outside_claim": ["signature verification itself (SDK ante handler)", "addresses of length other than 20 bytes", "owner strings of different lengths (bech32 of 20 bytes has fixed length)"],
     "assumptions": CHAIN_ASSUME,
 }
+
+C07_AUD = ["Harness_C07_audit_update_0_2", "Harness_C07_audit_update_1_2", "Harness_C07_audit_update_2_1", "Harness_C07_audit_update_2_2", "Harness_C07_audit_delete_2_1", "Harness_C07_audit_delete_3_1", "Harness_C07_audit_delete_3_0"]
+def c07_chain():
+    j = chain_job("C07")
+    j["quick"] = ["Harness_C07_%s" % h for h in CHAIN_H if h != "CloseDeployment"]
+    j["thorough"] = ["Harness_C07_%s" % h for h in CHAIN_H]
+    j["reach"] = {}
+    return j
+PROPS["C07"] = {
+    "jobs": [
+        {"pkg": "x/audit/keeper", "files": ["harness/C07/audit.go"], "shims": ["shim.go.tmpl", "shim_chain.go.tmpl"],
+         "quick": C07_AUD, "thorough": C07_AUD + ["Harness_C07_audit_update_3_2"], "opts": {"timeout": 20000}, "native_replay": True},
+        c07_chain(),
+    ],
+    "bounds": {"quick": "2-run self-composition: (B) audit keeper CreateOrUpdate/DeleteProviderAttributes with <=2 (delete: 3) stored and <=2 new attributes, symbolic 1-byte keys/values, every map iteration order of both runs; (A) 11 of the 12 deployment/market handlers (thorough: all 12) executed twice on forked contexts from the arbitrary INV pre-state of the chain step with map iteration order inside the code under test turned into choice points",
+               "thorough": "adds 3 stored attributes and CloseDeployment"},
+    "stubs": CHAIN_STUBS + ["sort.Slice/SliceStable -> the real stable_func/pdqsort_func SSA with an engine swapper", "Go map iteration order -> one choice point per range statement in code under test (all permutations)"],
+    "outside_claim": ["non-determinism inside Tendermint/IAVL/protobuf encoding", "time.Now/rand/goroutines (none is reachable from the handlers: any call would end the path as unsupported and be reported)", "provider/cert handlers (no map, no iteration)"],
+    "assumptions": CHAIN_ASSUME + ["native replay cannot force Go's map order; a counterexample is confirmed by re-running the real code until the two orders are observed"],
+}
